@@ -408,6 +408,8 @@ class Engine:
                         if st.frames[-1] is not fr: break
                     elif op == 'ret':
                         rv = ev(st, regs, I[1]) if I[1] is not None else None
+                        if len(st.frames) == 1:
+                            E.end_path(st); st.frames.pop(); return None      # path ends: sample texts are rendered while main's locals are still alive
                         for oid in fr.allocas:
                             o = E.wobj(st, oid); o.dead = True; o.cells = []
                         st.frames.pop()
